@@ -27,7 +27,7 @@ TECHNIQUE = ('Lean 4 theorems about a model of mibdump\'s exit code and report a
              'destination listing are compared with the model fed with the status map of an in-process library run wired like the script, and '
              'mibcopy is run in every visiting order')
 LEVEL_TEXT = ('Proved in Lean: exit status 0 iff no module is missing or failed; a module is reported under exactly the category of its '
-              'status; after mibcopy\'s loop every module seen is in the destination with a revision at least as new as every source seen, '
+              'status; after mibcopy\'s loop every module seen is in the destination with a revision at least as new as every source seen; a dry run of mibcopy leaves the destination alone and takes every copy / do-not-copy decision of the real run (C20_mibcopy_dry_run, C20_mibcopy_dry_report), '
               'what is stored is a file seen or what was there before, and the stored revision does not depend on the visiting order - for '
               'every list of sources and every initial destination (the script\'s cache is proved to mirror the destination). The files-on-disk '
               'part rests on C07_written_iff_reported and C13_atomic / C13_dryrun for the library. Exercised, not modelled (partial): option '
